@@ -169,3 +169,232 @@ class UpdateRow(Contract):
 
 UNITS = [Iloc(), ToList(), UpdateCell(), UpdateRow()]
 LEMMAS = [LemmaUnit("ceil_div", ceil_div_lemma)]
+
+
+# =====================================================================================================================
+# TableAttributes._encode (A6): C02 (cell text), C08 (widths), C09 (binding to the ORIGINAL (row, column)), C01 (row shape)
+from pyvc.libmodels.polars_model import PolarsModel, DfObj, DfRow, fresh_df
+from pyvc.libmodels.strings import StrModel
+from pyvc.values import StrSort, ValSort, val_null, val_str, to_z3, norm_str, Rope, fresh_name, BoundMethod
+from pyvc.state import OutOfSubset
+
+_AT = {}
+ATTR_SORT = {
+    "text_font": "int", "text_font_size": "real", "text_format": "str", "text_color": "str", "text_background_color": "str",
+    "text_justification": "str", "text_indent_first": "int", "text_indent_left": "int", "text_indent_right": "int", "text_space": "int",
+    "text_space_before": "int", "text_space_after": "int", "text_convert": "bool", "text_hyphenation": "bool",
+    "border_left": "str", "border_right": "str", "border_top": "str", "border_bottom": "str", "border_width": "int",
+    "border_color_left": "str", "border_color_right": "str", "border_color_top": "str", "border_color_bottom": "str",
+    "cell_vertical_justification": "str", "cell_justification": "str", "cell_height": "real",
+}
+_Z = {"int": z3.IntSort(), "real": z3.RealSort(), "str": StrSort, "bool": z3.BoolSort()}
+
+
+def AT(name, r, col):
+    """The user's value for attribute `name` at the ORIGINAL cell position: BroadcastValue(attr).iloc(r, col) (unit Iloc)."""
+    if name not in _AT:
+        _AT[name] = (z3.Function("attr_" + name, z3.IntSort(), z3.IntSort(), _Z[ATTR_SORT[name]]), z3.Bool("attr_" + name + "_is_none"))
+    f, none = _AT[name]
+    return Opt(none, f(to_z3(r), to_z3(col)))
+
+
+class AttrVal:
+    """Marker value of an attribute field of the TableAttributes object under contract."""
+    def __init__(self, name):
+        self.name = name
+
+
+def same(a, b):
+    """Structural / semantic equality of two possibly-Optional scalars as a formula."""
+    a, b = norm_str(a), norm_str(b)
+    if a is None and b is None:
+        return z3.BoolVal(True)
+    if a is None or b is None:
+        o = b if a is None else a
+        return o.isnone if isinstance(o, Opt) else z3.BoolVal(False)
+    if isinstance(a, Opt) and isinstance(b, Opt):
+        return And(a.isnone == b.isnone, Implies(Not(a.isnone), to_z3(a.payload) == to_z3(b.payload)))
+    if isinstance(a, Opt) or isinstance(b, Opt):
+        o, x = (a, b) if isinstance(a, Opt) else (b, a)
+        return And(Not(o.isnone), to_z3(o.payload) == to_z3(x))
+    za, zb = to_z3(a), to_z3(b)
+    if za.sort() != zb.sort():
+        from pyvc import ops
+        za, zb = ops.to_real(za), ops.to_real(zb)
+    return za == zb
+
+
+TEXT_FIELDS = {"font": "text_font", "size": "text_font_size", "format": "text_format", "color": "text_color",
+               "background_color": "text_background_color", "justification": "text_justification", "indent_first": "text_indent_first",
+               "indent_left": "text_indent_left", "indent_right": "text_indent_right", "space": "text_space",
+               "space_before": "text_space_before", "space_after": "text_space_after", "convert": "text_convert",
+               "hyphenation": "text_hyphenation"}
+ROWTOK = z3.Function("rtf_data_row", z3.IntSort(), z3.IntSort(), StrSort)          # (frame uid, row index in that frame)
+CELLID = z3.Function("cell_id", z3.IntSort(), z3.IntSort(), z3.IntSort())
+
+
+class EncodeRows(Contract):
+    """TableAttributes._encode(df, col_widths, row_offset): one Row per frame row, in order; cell (i, j) shows the display text of
+    df[i, j] and carries every formatting attribute at the original position (i + row_offset, j); widths col_widths[j]."""
+    target = "attributes.py::TableAttributes._encode"
+    serves = ["C01", "C02", "C08", "C09"]
+    models = [PolarsModel(), StrModel()]
+
+    def setup(self, c):
+        cls = c.cls("rtflite.attributes", "TableAttributes")
+        fields = {name: AttrVal(name) for name in ATTR_SORT}
+        fields["cell_nrow"] = AttrVal("cell_nrow")
+        c.bind("self", c.alloc(RecObj("TableAttributes", fields, pyclass=cls, fresh=False, origin="CALLER")))
+        df = fresh_df(c.st, "df")
+        c.bind("df", df)
+        d = c.obj(df)
+        cw = c.param("col_widths", T.List(T.Real))
+        off = c.param("row_offset", T.Int)
+        c.requires("row_offset_nonneg", off >= 0)
+        c.requires("one_width_per_column", c.obj(cw).length >= d.w)            # obligation at the call sites (A3, A7)
+        # attributes the emitters need are set (RTFBody / RTFColumnHeader / footnote defaults: TableUnit component_defaults)
+        for name in ("text_font", "text_font_size", "text_justification", "text_indent_first", "text_indent_left", "text_indent_right",
+                     "text_space", "text_space_before", "text_space_after", "text_convert", "text_hyphenation", "border_left", "border_right",
+                     "border_top", "border_bottom", "cell_justification", "cell_height", "border_width"):
+            c.requires(f"{name}_set", Not(AT(name, 0, 0).isnone))
+        c.v.update(d=d, off=off, cw=c.obj(cw))
+
+    # ---- handlers --------------------------------------------------------------------------------------------------
+    @property
+    def handlers(self):
+        def new_bv(I, st, cv, args, kwargs, node):
+            return st.alloc(RecObj("BroadcastValue", {"value": kwargs.get("value"), "dimension": kwargs.get("dimension")}, pyclass=cv.pyclass))
+
+        def ij(st):
+            return st.env_lookup("i"), st.env_lookup("j")
+
+        def new_text(I, st, cv, args, kwargs, node):
+            i, j = I.lookup(st, "i"), I.lookup(st, "j")
+            d, off = self._v["d"], self._v["off"]
+            site = getattr(node, "lineno", None)
+            v = d.cell(i, j)
+            I.oblige(st, f"C02.cell_text_is_display_text@L{site}", same(kwargs.get("text"), z3.If(val_null(v), lit(""), val_str(v))), "post", site)
+            for fld, attr in TEXT_FIELDS.items():
+                I.oblige(st, f"C09.text.{fld}_follows_original_cell@L{site}", same(kwargs.get(fld), AT(attr, to_z3(i) + off, j)), "post", site)
+            # TextContent typed fields (pydantic): required non-optional fields must not be None
+            for fld in ("font", "size", "justification", "indent_first", "indent_left", "indent_right", "space", "space_before", "space_after",
+                        "convert", "hyphenation"):
+                val = kwargs.get(fld)
+                if isinstance(val, Opt):
+                    I.oblige(st, f"C01.TextContent.{fld}_not_none@L{site}", Not(val.isnone), "safety", site)
+            return st.alloc(RecObj("TextContent", dict(kwargs, _ij=(i, j)), pyclass=cv.pyclass))
+
+        def new_border(I, st, cv, args, kwargs, node):
+            return st.alloc(RecObj("Border", {"style": kwargs.get("style"), "width": kwargs.get("width", "DEFAULT"),
+                                              "color": kwargs.get("color", "DEFAULT")}, pyclass=cv.pyclass))
+
+        def check_border(I, st, b, side, i, j, site):
+            off = self._v["off"]
+            if b is None:
+                return
+            bo = st.obj(b)
+            I.oblige(st, f"C09.border.{side}_style_follows_original_cell@L{site}", same(bo.fields["style"], AT(f"border_{side}", to_z3(i) + off, j)), "post", site)
+            w = bo.fields["width"]
+            I.oblige(st, f"C09.border.{side}_width_emitted@L{site}",
+                     z3.BoolVal(False) if isinstance(w, str) else same(w, AT("border_width", to_z3(i) + off, j)), "post", site)
+            col = bo.fields["color"]
+            want = AT(f"border_color_{side}", to_z3(i) + off, j)
+            if isinstance(col, str):
+                ok = z3.BoolVal(False)
+            else:
+                # '' / None mean "no colour": the Border gets None; otherwise the named colour
+                nocol = Or(want.isnone, want.payload == lit(""))
+                if col is None:
+                    ok = nocol
+                elif isinstance(col, Opt):
+                    ok = And(col.isnone == nocol, Implies(Not(nocol), to_z3(col.payload) == want.payload))
+                else:
+                    ok = And(Not(nocol), to_z3(norm_str(col)) == want.payload)
+            I.oblige(st, f"C09.border.{side}_colour_emitted@L{site}", ok, "post", site)
+
+        def new_cell(I, st, cv, args, kwargs, node):
+            i, j = I.lookup(st, "i"), I.lookup(st, "j")
+            d, off, cw = self._v["d"], self._v["off"], self._v["cw"]
+            site = getattr(node, "lineno", None)
+            t = kwargs.get("text")
+            tij = st.obj(t).fields.get("_ij") if isinstance(t, Ref) else None
+            I.oblige(st, f"C02.cell_carries_its_own_text@L{site}", z3.BoolVal(tij is not None and tij[0] is i and tij[1] is j), "post", site)
+            I.oblige(st, f"C08.cell_width_is_col_widths_j@L{site}", same(kwargs.get("width"), cw.get(to_z3(j))), "post", site)
+            I.oblige(st, f"C09.cell.vertical_justification_follows_original_cell@L{site}",
+                     same(kwargs.get("vertical_justification"), AT("cell_vertical_justification", to_z3(i) + off, j)), "post", site)
+            for side in ("left", "top", "bottom"):
+                b = kwargs.get(f"border_{side}")
+                I.oblige(st, f"C09.border.{side}_present@L{site}", z3.BoolVal(isinstance(b, Ref)), "post", site)
+                check_border(I, st, b if isinstance(b, Ref) else None, side, i, j, site)
+            br = kwargs.get("border_right")
+            last = to_z3(j) == d.w - 1
+            I.oblige(st, f"C09.border.right_only_on_last_column@L{site}", z3.BoolVal(br is not None) == last, "post", site)
+            check_border(I, st, br if isinstance(br, Ref) else None, "right", i, j, site)
+            return CELLID(to_z3(i), to_z3(j))
+
+        def new_row(I, st, cv, args, kwargs, node):
+            i = I.lookup(st, "i")
+            d, off = self._v["d"], self._v["off"]
+            site = getattr(node, "lineno", None)
+            cells = st.obj(kwargs["row_cells"])
+            from pyvc.seqs import as_symlist
+            n, g = as_symlist(st, cells)
+            k = z3.Int("rk")
+            I.oblige(st, f"C01.row_has_one_cell_per_column@L{site}", n == d.w, "post", site)
+            I.oblige(st, f"C02.cells_in_column_order@L{site}", ForAll([k], Implies(And(0 <= k, k < d.w), g(k) == CELLID(to_z3(i), k))), "post", site)
+            I.oblige(st, f"C09.row.justification_follows_original_row@L{site}", same(kwargs.get("justification"), AT("cell_justification", to_z3(i) + off, 0)), "post", site)
+            I.oblige(st, f"C09.row.height_follows_original_row@L{site}", same(kwargs.get("height"), AT("cell_height", to_z3(i) + off, 0)), "post", site)
+            return st.alloc(RecObj("Row", {"_i": i}, pyclass=cv.pyclass))
+        return {"new:BroadcastValue": new_bv, "new:TextContent": new_text, "new:Border": new_border, "new:Cell": new_cell, "new:Row": new_row}
+
+    @property
+    def summaries(self):
+        def iloc(I, st, args, kwargs, node):
+            bv = st.obj(args[0])
+            val = bv.fields["value"]
+            if not isinstance(val, AttrVal):
+                raise OutOfSubset("BroadcastValue.iloc on a value that is not an attribute of self")
+            if val.name not in ATTR_SORT:
+                raise OutOfSubset(f"attribute {val.name} has no declared sort")
+            return AT(val.name, args[1], args[2])
+
+        def row_as_rtf(I, st, args, kwargs, node):
+            i = st.obj(args[0]).fields["_i"]
+            return st.alloc(ListObj(items=[ROWTOK(IntVal(self._v["d"].uid), to_z3(i))]))
+        return {"BroadcastValue.iloc": iloc, "Row._as_rtf": row_as_rtf}
+
+    def setup_loops(self, c):
+        self._v = c.v
+        d = c.v["d"]
+        uid = IntVal(d.uid)
+
+        def inv_rows(v):
+            rows = v.obj(v.rows)
+            from pyvc.seqs import safe_view
+            n, g = safe_view(v.state, rows, lit(""))
+            k = z3.Int("k")
+            return {"one_chunk_per_row": n == v.i,
+                    "chunks_in_row_order": ForAll([k], Implies(And(0 <= k, k < v.i), to_z3(g(k)) == ROWTOK(uid, k)))}
+
+        def inv_cells(v):
+            cells = v.obj(v.cells)
+            from pyvc.seqs import safe_view
+            n, g = safe_view(v.state, cells, IntVal(-1))
+            k = z3.Int("k")
+            i = v.state.env["i"]
+            return {"outer_index": And(0 <= to_z3(i), to_z3(i) < d.n),
+                    "one_cell_per_column_so_far": n == v.i,
+                    "cells_in_column_order": ForAll([k], Implies(And(0 <= k, k < v.i), g(k) == CELLID(to_z3(i), k)))}
+        self.loops = {4: LoopSpec(inv=inv_rows, havoc={"rows": T.List(T.Str)}),
+                      5: LoopSpec(inv=inv_cells, havoc={"cells": T.List(T.Int)})}
+
+    def ensures(self, c, out):
+        d = c.v["d"]
+        from pyvc.seqs import seq_view
+        n, g = seq_view(out.state, out.value)
+        k = z3.Int("k")
+        return {"one_row_chunk_per_frame_row": n == d.n,
+                "row_chunks_in_frame_order": ForAll([k], Implies(And(0 <= k, k < d.n), to_z3(g(k)) == ROWTOK(IntVal(d.uid), k)))}
+
+
+UNITS.append(EncodeRows())
